@@ -260,7 +260,7 @@ def scenario_trace(tid, scn, ev, raw_vals, check, mode=None):
         elif k == 'exc':
             break
     hdr = {'mode': mode or scn['kind'], 'check': list(check), 'raw': [[rk[v] for v in cd] for cd in raw_vals],
-           'lev': 1, 'levmode': 'cross', 'fee': [0, 1]}
+           'lev': 1, 'levmode': 'cross', 'fee': [0, 1], 'passive': False}
     return {'id': tid, 'hdr': hdr, 'ev': out}
 
 
@@ -291,9 +291,21 @@ def q8_or(x, default=-1):
     return int(y) if y == int(y) and abs(y) < 1e8 else default
 
 
-def vivo_trace(tid, rec_events, raw, cfg, mode, check, unit=1e-3, completed=True):
+def vivo_trace(tid, rec_events, raw, cfg, mode, check, unit=1e-3, completed=True, sym=None, passive=False):
     """raw: the 1m candle array given to research.backtest (n x 6, before jesse mutates its copy).
-    Prices -> dense ranks over the run; C09 amounts -> multiples of `unit`."""
+    Prices -> dense ranks over the run; C09 amounts -> multiples of `unit`.
+    sym: encode the trace of this symbol out of a run with several routes; the liquidation checks of the other
+    symbols appear as xliq / xliq_end (with this symbol's position), `passive` says that this symbol's strategy
+    does not react to the other route's events (then nothing of it may move inside such a window)."""
+    if sym is not None:
+        own = []
+        for e in rec_events:
+            if e.get('sym') == sym:
+                own.append(e)
+            elif e['k'] in ('liqcheck', 'liqcheck_end') and 'sym' in e:
+                q = ((e.get('acct') or {}).get('pos') or {}).get(sym, {}).get('qty', 0)
+                own.append({'k': 'x' + e['k'], 'xq': q, 'exc': 'none', 'count': int(e['count'])})
+        rec_events = own
     vals = set()
     for row in raw:
         vals.update(float(x) for x in row[1:5])
@@ -363,6 +375,9 @@ def vivo_trace(tid, rec_events, raw, cfg, mode, check, unit=1e-3, completed=True
             q = e.get('qty')
             out.append({'k': k, 'haspos': q is not None, 'liq': rk[float(liq)] if has else 0,
                         'q8': 0 if not q else q8_or(q, 77777777)})
+        elif k in ('xliqcheck', 'xliqcheck_end'):
+            out.append({'k': 'xliq' if k == 'xliqcheck' else 'xliq_end', 'q8': q8_or(e['xq'], 77777777) if e['xq'] else 0,
+                        'count': e['count']})
         elif k == 'liqcheck':
             liq = e.get('liq')
             has = liq is not None and not (isinstance(liq, float) and math.isnan(liq))
@@ -378,7 +393,7 @@ def vivo_trace(tid, rec_events, raw, cfg, mode, check, unit=1e-3, completed=True
     if completed and n_ok == len(rec_events):      # a run that ended in a jesse exception never flushed its last orders
         out.append({'k': 'end'})
     hdr = {'mode': mode, 'check': list(check), 'raw': [[rk[float(x)] for x in (r[1], r[2], r[3], r[4])] for r in raw],
-           'lev': int(cfg.get('futures_leverage', 1)), 'fee': fee,
+           'lev': int(cfg.get('futures_leverage', 1)), 'fee': fee, 'passive': bool(passive),
            'levmode': 'spot' if cfg.get('type') == 'spot' else cfg.get('futures_leverage_mode', 'cross')}
     return {'id': tid, 'hdr': hdr, 'ev': out}
 
@@ -673,6 +688,86 @@ def liq_approach(pattern, P0, liq, side, tf=1, tp=None):
             return [cd(P0, P0, P0), b]
         return [{'mins': [(P0, P0, P0, P0)] + [b] + [(beyond, beyond, beyond, beyond)] * (tf - 2)}]
     raise ValueError(pattern)
+
+
+def make_pair_strategy(p):
+    """two routes in one isolated-margin session.  The victim opens at market at step 2 and is liquidated later;
+    the follower holds a position with resting exits and a resting far entry and - when p['react'] - leaves at
+    market from on_route_close_position (a reduce-only MARKET order queued while the victim's check runs)"""
+    from jesse.strategies import Strategy
+
+    class Pair(Strategy):
+        def _victim(self):
+            return self.symbol == p['victim']
+
+        def should_long(self):
+            return self.index == 2 and (p['side'] == 1 or not self._victim())
+
+        def should_short(self):
+            return self.index == 2 and p['side'] == -1 and self._victim()
+
+        def go_long(self):
+            if self._victim():
+                self.buy = p['qv'], self.price
+            else:
+                self.buy = [(2, self.price), (1, self.price * 0.8)]
+                self.take_profit = 2, self.price * 1.5
+                self.stop_loss = 2, self.price * 0.6
+
+        def go_short(self):
+            self.sell = p['qv'], self.price
+
+        def should_cancel_entry(self):
+            return False
+
+        def on_route_close_position(self, strategy):
+            if not self._victim() and p['react'] and self.position.is_open:
+                self.liquidate()
+    return Pair
+
+
+def run_liq_pair(item):
+    """forked worker: victim + follower on one isolated-margin exchange; the victim's candle touches (or jumps
+    over) the liquidation price of its entry (expression of Position.liquidation_price on the entry price P0).
+    Returns ([victim trace, follower trace], stats)."""
+    from ..session import Recorder, run_backtest
+    import signal
+    p, cfg = item['p'], item['cfg']
+    V, F = p['victim'], p['follower']
+    L, P0, s, m = cfg['futures_leverage'], float(p['P0']), p['side'], p['tf']
+    liq = P0 * (1 - 1 / L + 0.004) if s == 1 else P0 * (1 + 1 / L - 0.004)
+    ext = liq if p['how'] == 'touch' else liq - s * abs(P0 - liq) * 0.4
+    steps_v = [(P0, P0, P0, P0)] * 6 + [(P0, (P0 + liq) / 2, max(P0, ext), min(P0, ext))] + [((P0 + liq) / 2,) * 4] * 3
+    steps_f = [(100.0, 100.0, 100.0, 100.0)] * 6 + [(100.0, 103.0, 103.0, 100.0)] + [(103.0, 103.0, 103.0, 103.0)] * 3
+
+    def series(steps):
+        rows = []
+        for (o, c, h, l) in steps:
+            rows.append([o, c, h, l])
+            rows += [[c, c, c, c]] * (m - 1)
+        return np.array([[T0 + i * MIN] + r + [10.0] for i, r in enumerate(rows)], dtype=float)
+    raws = {V: series(steps_v), F: series(steps_f)}
+    order = [F, V] if p['follower_first'] else [V, F]
+    tfs = {1: '1m', 3: '3m'}[m]
+    rec = Recorder(account=True).install()
+    _watchdog(120)
+    try:
+        out = run_backtest(None, cfg, {sym: raws[sym].copy() for sym in order},
+                           routes=[{'symbol': sym, 'timeframe': tfs} for sym in order], fast=item['fast'],
+                           strategy_cls=make_pair_strategy(p))
+    finally:
+        signal.alarm(0)
+        rec.uninstall()
+    mode = 'fast' if item['fast'] else 'step'
+    done = out.get('exc') is None
+    trs = [vivo_trace(item['id'] * 4, rec.ev, raws[V], cfg, mode, ['liq', 'market'], completed=done, sym=V),
+           vivo_trace(item['id'] * 4 + 1, rec.ev, raws[F], cfg, mode, ['liq', 'market'], completed=done, sym=F,
+                      passive=not p['react'])]
+    fin = out.get('final') or {}
+    stats = {'liq': fin.get('liquidations', 0), 'exc': out.get('exc'),
+             'follower_qty_end': (fin.get('pos') or {}).get('%s-%s' % (cfg['exchange'], F), {}).get('qty'),
+             'follower_markets': sum(1 for e in trs[1]['ev'] if e['k'] == 'submit' and e['typ'] == 'MARKET')}
+    return trs, stats
 
 
 LIQ_PATTERNS = ['touch', 'miss', 'jump', 'close_at', 'miss_then_touch', 'gap_over', 'stay_away', 'touch_then_partial_tp',
